@@ -59,15 +59,39 @@ def pproj(m, back=False):
     return {'atoms': atoms}
 
 
+def to_v0(raw, m):
+    """the pack in the earlier layout: header byte 0, bond orders five per two bytes (0 + 5 x 3 bits); everything else is the same"""
+    n = len(m._atoms)
+    nb = sum(len(x) for x in m._bonds.values()) // 2
+    o_start = 4 + 9 * n + 3 * nb
+    o_len = (nb * 3 + 7) // 8
+    bits = ''.join(f'{b:08b}' for b in raw[o_start:o_start + o_len])
+    orders = [int(bits[3 * k:3 * k + 3], 2) for k in range(nb)]
+    out = bytearray()
+    for k in range(0, nb, 5):
+        g = orders[k:k + 5] + [0] * (5 - len(orders[k:k + 5]))
+        w = g[0] << 12 | g[1] << 9 | g[2] << 6 | g[3] << 3 | g[4]
+        out += bytes([w >> 8, w & 255])
+    return bytes([0]) + bytes(raw[1:o_start]) + bytes(out) + bytes(raw[o_start + o_len:])
+
+
 def observe(m, shipped=None):
     import chython
     from chython import MoleculeContainer
     rec = {'kind': 'mol', 'm': pproj(m), 'bytes': [], 'back': {'atoms': []}, 'plen': -1, 'dispatch': 0, 'shipped': list(shipped) if shipped else [], 'exc': '',
-           'cs': '', 'cref': '', 'dunder': []}
+           'cs': '', 'cref': '', 'dunder': [], 'v0': [], 'back0': {'atoms': []}, 'exc0': '', 'dispatch0': 0}
     try:
         raw = m.pack(compressed=False)
         rec['bytes'] = list(raw)
         rec['dunder'] = list(zlib.decompress(bytes(m)))
+        v0 = to_v0(raw, m)
+        rec['v0'] = list(v0)
+        try:
+            b0 = MoleculeContainer.unpack(v0, compressed=False)
+            rec['back0'] = pproj(b0, back=True)
+            rec['dispatch0'] = 1 if pproj(chython.unpack(zlib.compress(v0)), back=True) == rec['back0'] else 0
+        except Exception as e:
+            rec['exc0'] = type(e).__name__
         b = MoleculeContainer.unpack(raw, compressed=False)
         rec['back'] = pproj(b, back=True)
         rec['plen'] = MoleculeContainer.pack_len(m.pack())
@@ -132,7 +156,7 @@ def grid_case(case):
             m.add_atom(e(case['iso'] or None, charge=case['c'], is_radical=bool(case['r'])), case['n'])
         except Exception as ex:      # every grid point is a tabulated (element, isotope, charge) combination: refusing it is an observation
             return {'kind': 'mol', 'm': {'atoms': []}, 'bytes': [], 'back': {'atoms': []}, 'plen': -1, 'dispatch': 0, 'shipped': [],
-                    'exc': 'construct-' + type(ex).__name__, 'cs': '', 'cref': '', 'dunder': []}
+                    'exc': 'construct-' + type(ex).__name__, 'cs': '', 'cref': '', 'dunder': [], 'v0': [], 'back0': {'atoms': []}, 'exc0': '', 'dispatch0': 0}
         if case.get('h') is not None:
             m._atoms[case['n']]._implicit_hydrogens = None if case['h'] < 0 else case['h']
     elif case['what'] == 'star':       # one centre with k neighbours
